@@ -314,7 +314,7 @@ HARNESSES = {'roundtrip': h_roundtrip, 'parser_symbolic_ids': h_parser_symbolic_
 
 def jobs(tier):
     out = []
-    shapes = [(2, 2), (1, 2), (2, 1), (2, 3)] if tier == 'quick' else [(2, 2), (1, 2), (2, 1), (2, 3), (3, 2), (1, 1), (1, 3), (3, 1), (1, 4), (3, 3)]
+    shapes = [(2, 2), (1, 2), (2, 1), (2, 3)] if tier == 'quick' else [(2, 2), (1, 2), (2, 1), (2, 3), (3, 2), (1, 1), (1, 3), (3, 1), (3, 3)]
     for nr, nc in shapes:
         for idk in ID_MENUS:
             for md in (False, True):
@@ -349,7 +349,7 @@ META = {
     'encoded': {'biom/table.py': ['delimited_self', 'to_tsv', '_extract_data_from_tsv', 'from_tsv', '_to_dense', '_iter_obs'],
                 'biom/cli/table_converter.py': ['_convert'], 'biom/cli/util.py': ['write_biom_table'], 'biom/parse.py': ['parse_biom_table', 'load_table'],
                 'biom/util.py': ['biom_open', 'is_gzip']},
-    'bounds': {'quick': {'shapes': '2x2, 1x2, 2x1, 2x3', 'symbolic ids': '|id| <= 4 printable ASCII'}, 'thorough': {'shapes': '+ 3x2, 1x1, 1x3, 3x1, 1x4, 3x3'}},
+    'bounds': {'quick': {'shapes': '2x2, 1x2, 2x1, 2x3', 'symbolic ids': '|id| <= 4 printable ASCII'}, 'thorough': {'shapes': '+ 3x2, 1x1, 1x3, 3x1, 3x3'}},
     'outside': ['str(float64) re-parses to the same double (shortest-repr axiom of CPython/numpy dtoa -- not encodable here)', 'gzip decompression and real files (the operating system under biom_open is replaced by checks/fsmodel.py), click argument parsing',
                 'ID text outside printable ASCII in the symbolic-ID step (the concrete menus include non-ASCII)'],
     'assumptions': ['a formatted number is one token without blanks/tabs (token axiom)', 'z3 sequence theory'],
